@@ -8,7 +8,6 @@
 (* (Number::exponentiate away from the special points and from exactly            *)
 (* representable powers): a non-NaN number with sign sg; it propagates.           *)
 EXTENDS JsConv
-LOCAL INSTANCE SequencesExt
 
 NumV(d) == VNumW(DToW(d))
 Approx(sg) == [k |-> "approx", s |-> sg]
@@ -48,7 +47,7 @@ TypeOfU(v) ==
 DIsOddInt(y) == y.c = "fin" /\ DIsInteger(y) /\ (IF y.e > 0 THEN FALSE ELSE BnBit(y.m, 0 - y.e) = 1)
 DMagCmpOne(x) == DMagCmp(x, DOne)                                     \* |x| ? 1 (x finite)
 \* m^n by repeated multiplication (n <= 64)
-BnPowS(mm, n) == FoldLeft(LAMBDA acc, it : BnMul(acc, mm), BnOne, BnIdx(n))
+BnPowS(mm, n) == BnFold(LAMBDA acc, it : BnMul(acc, mm), BnOne, BnIdx(n))
 \* finite nonzero base, finite nonzero integer exponent: the exact power if it is a double
 PowFinite(x, y) ==
   LET sg == IF x.s = 1 /\ DIsOddInt(y) THEN 1 ELSE 0
